@@ -25,7 +25,9 @@ for id in "$@"; do
     ( cd "$scratch/harness" && go build -tags "verif shim" -overlay "$scratch/ov/overlay.json" -o "$scratch/mcshim" ./cmd/mc ) || { echo "C10 exit=2 (shim build)"; continue; }
     export VERIF_SHIM_BIN="$scratch/mcshim" VERIF_SHIM_REPORT="$scratch/ov/report.json"
   fi
-  out=$(VERIF_ROOT="$scratch/root" "$scratch/mc" check -p "$id" -tier "$tier" 2>/dev/null); rc=$?
+  out=$(VERIF_ROOT="$scratch/root" "$scratch/mc" check -p "$id" -tier "$tier" 2>"$scratch/stderr.txt"); rc=$?
   echo "$id exit=$rc"
+  # exit 2 = the check could not run (for example a seed that no longer builds): show why
+  if [ $rc -ge 2 ] || [ -n "${VERIF_MUT_STDERR:-}" ]; then tail -n 8 "$scratch/stderr.txt" | cut -c1-600; fi
   echo "$out" | grep -A2 "^VIOLATION" | cut -c1-400
 done
